@@ -67,6 +67,24 @@ harnesses! {
         cover!(ok && newr < 0.55, "slow ratio");
         forget(r);
     }
+    // FastFixedIn: the delay must follow the CURRENT ratio (stepped change to 2.0 or 0.5, two calls)
+    #[kani::unwind(34)]
+    fn c14_ffi_changed(nd) {
+        let mut r = FastFixedIn::<f64>::new(1.0, 2.0, PolynomialDegree::Linear, 10, 1).unwrap();
+        let up = nd.bool();
+        let newr = if up { 2.0 } else { 0.5 };
+        check!(r.set_resample_ratio(newr, false).is_ok(), "C12.abs_iff[base]");
+        let mut st = Stream { supplied: 0, produced: 0, last: 0.0, have_last: false };
+        let mut tau = [0.0f64; 30];
+        let (ok, _, n) = call_line::<_, _, 10, 30>(nd, &mut r, &mut st, &mut tau);
+        check!(ok, "C03.ok[base]");
+        delay_checks!(r, st, tau, n, 30, newr, 0.0, "C14.delay[base]");
+        let (ok, _, n) = call_line::<_, _, 10, 30>(nd, &mut r, &mut st, &mut tau);
+        check!(ok, "C03.ok[base]");
+        cover!(ok && n > 0 && tau[0] >= 0.0, "frames inside the stream observed");
+        delay_checks!(r, st, tau, n, 30, newr, 0.0, "C14.delay[base]");
+        forget(r);
+    }
     // SincFixedOut with the probe: the probe's value is the centre of the kernel window, i.e.
     // the input instant the real (linear-phase, centred) kernel evaluates.
     #[kani::unwind(8)]
